@@ -132,3 +132,65 @@ func VfC05_Duplicate() {
 	vfAssert(hC05DupIDs[k], vfImp(same, vfAnd(err != nil, m == nil)))
 	vfAssert(hC05DistinctIDs[k], vfImp(vfNot(same), vfAnd(err == nil, m != nil)))
 }
+
+// hRename rewrites every occurrence of the one-letter (or one-digit) name
+// `from` — after a sigil (@ % $ ! #) or as a label definition at the start of
+// a line — to the name `to`.
+func hRename(text string, from byte, to string) string {
+	out := ""
+	for i := 0; i < len(text); i++ {
+		c := text[i]
+		isName := false
+		if c == from {
+			nextOK := i+1 >= len(text) || !(text[i+1] >= 'a' && text[i+1] <= 'z' || text[i+1] >= '0' && text[i+1] <= '9' || text[i+1] == '_' || text[i+1] == '.')
+			if i > 0 {
+				p := text[i-1]
+				if (p == '@' || p == '%' || p == '$' || p == '!' || p == '#') && nextOK {
+					isName = true
+				}
+			}
+			if i+1 < len(text) && text[i+1] == ':' && (i == 0 || text[i-1] == '\n') {
+				isName = true
+			}
+		}
+		if isName {
+			out += to
+		} else {
+			out += string(c)
+		}
+	}
+	return out
+}
+
+// VfC05_History: an undefined name stays an error whatever was parsed earlier
+// in the process: a module that *defines* that very name at the same kind of
+// site (the same template with a defined name renamed to it) is parsed first.
+// sync.Pool, should the library use one, is modelled as handing out any pooled
+// object or none.
+//
+//vf:unwind 300
+//vf:shards 16
+func VfC05_History() {
+	k := vfChoice("template", len(hC05Undef))
+	t := hC05Undef[k]
+	if t.accept {
+		vfCut("undefined attribute groups are materialised (documented exception)")
+	}
+	var name string
+	if t.digit {
+		name = hLetterIn("name", '6', '9')
+	} else {
+		name = hLetterIn("name", 'u', 'w')
+	}
+	// the earlier, valid module: the first defined name renamed to `name`
+	d := t.defined[0]
+	earlier := hRename(t.pre+string(d)+t.post, d, name)
+	_, errE := ParseString("e.ll", earlier)
+	src := t.pre + name + t.post
+	m, err := ParseString("t.ll", src)
+	vfReach("C05.history")
+	vfObserveStr("earlier", earlier)
+	vfObserveStr("src", src)
+	vfAssert("C05.history.earlier-accepted", errE == nil)
+	vfAssert("C05.history.undefined-is-still-error", vfAnd(err != nil, m == nil))
+}
